@@ -61,6 +61,9 @@ def step (st : DSt) (op : List String) : DSt × List String :=
     | none => (st, [watchedLine st.s])
   | ["closed", a] => apply (.closed a)
   | ["ctlexit", a] => apply (.ctlExit a)
+  -- the harness did not let the controller of the purchase that is running on chain return (C10: a buyer /
+  -- validator controller returns when its purchase has ended): nothing happens
+  | ["ctlexit-refused", _] => (st, [watchedLine st.s])
   | ["deleted", a, _] =>
     let r := apply (.deleteFlag a)
     (r.1, ((if st.started ∧ st.s.watched.contains a then [s!"ctl sync {a}"] else []) ++ r.2.dropLast).mergeSort (· ≤ ·) ++ r.2.getLast?.toList)
